@@ -67,9 +67,9 @@ _add("C13",
      "Exploration with an exhaustive small-scope core (all states up to 4 pieces / 3 peers, below the end-game threshold) and sampling of larger states on both sides of the threshold; tie-break coverage is measured (tie classes in which several distinct members were picked).",
      "Trusted: the 15-line reference chooser; verif_set_status pokes statuses directly (peer state is built with real commands).")
 _add("C14",
-     "online invariant monitor over histories of real manager commands (direct-drive through hooks) with a fold of the choke/unchoke messages the manager emits",
-     "seeded histories of real commands (bitfield arrivals, Interested/NotInterested, SyncStats with rate vectors incl. heavy ties, rotations; 0..40 peers, 3..8 rotation rounds). After every command: regular unchoked <= 10, optimistic <= 1, the fold of emitted Choke/Unchoke per peer alternates and equals the manager's am_choked; after every rotation that was carried out: no unchoked uninterested peer, no choked interested peer with a strictly higher rate than a regular slot holder. Distinct non-trivial = distinct histories.",
-     "Exploration: 8e3 (quick) / 4e5 (thorough) histories, every intermediate manager state is checked (about 50 snapshots per history).",
+     "online invariant monitor over histories of real manager commands (direct-drive through hooks) with a fold of the choke/unchoke messages the manager emits, plus a wire monitor in the simulation (real connection tasks, real transfer rates, virtual time)",
+     "seeded histories of real commands (bitfield arrivals, Interested/NotInterested, SyncStats with rate vectors incl. heavy ties, rotations; 0..40 peers, 3..8 rotation rounds). After every command: regular unchoked <= 10, optimistic <= 1, the fold of emitted Choke/Unchoke per peer alternates and equals the manager's am_choked; after every rotation that was carried out: no unchoked uninterested peer, no choked interested peer with a strictly higher rate than a regular slot holder. Wire part: 8..10 dialled + 2..4 incoming downloaders with different request paces compete for the slots for 45..100 virtual seconds; the same bounds and policy predicates are checked on every manager state, the Choke/Unchoke frames written on each connection must alternate starting from 'choked', and at the quiescent end their fold must equal the manager's view. Distinct non-trivial = distinct histories + distinct wire scenarios.",
+     "Exploration: 8e3 (quick) / 4e5 (thorough) direct histories (about 50 manager states each) and 320 / 8000 wire scenarios.",
      "Trusted: the fold assumes the connection task transmits exactly what the manager's commands say (that translation is covered by the simulation checks).")
 _add("C17",
      "runtime oracle with generator-known ground truth + panic capture: accessor values vs. the generated document, every accessor exercised on every accepted input, create/parse round trip on real files",
@@ -122,6 +122,19 @@ _add("C08",
      "seeded scenarios: the client fetches a small torrent from a seeder (so that it has something to leak) while 1..3 abusers connect in or are dialled; each sends a handshake of kind {valid, wrong info-hash (1 bit / random), wrong peer id (dialled), wrong protocol string (one byte changed, keeping the sniffed byte), short protocol string} placed first / after other messages / never / after a valid one / before a valid one, inside a plausible history (Bitfield, Interested, Unchoke, Have, Request for an owned piece). Per connection: the first thing the client writes is its own handshake (its torrent's info-hash, its id); nothing is written to an incoming connection before its valid handshake; no Piece on a connection without completed valid handshake; after an invalid handshake nothing is written later than 1 s (virtual) afterwards, the connection is dropped within 1 s and the peer is gone from the manager's table. Distinct non-trivial = distinct abuser scripts.",
      "Exploration: 3e3 (quick) / 6e4 (thorough) scenarios; evidence counts invalid handshakes judged and own handshakes checked.",
      "Trusted: validity of a handshake is decided by the harness (protocol string, info-hash, and for dialled peers the id announced by the scripted tracker).",
+     assumptions=SIM_ASSUMPTIONS)
+
+_add("C10",
+     "wire oracle over the simulation with a peer that answers in chosen orders, duplicates and withholds blocks: reference tiling per assignment epoch, in-flight bound, up-front count at the first answer, completion monitored in the manager log",
+     "seeded scenarios: piece length in {1, 16383, 16384, 16385, 32767, 32768, 40000, 49152, 3*16384+{0,1,2}, random <= 70000}, 1..6 pieces with last-piece remainders {1, full, L mod 16K, L-1, random}; the peer answers in order / newest first / randomly, re-sends answered blocks, never answers some requests, chokes after k answers and unchokes later; failpoints in a third of the runs. An epoch starts at every Request with begin 0: it must name the piece the manager assigned; the requests of an epoch are, in order and without repetition, the canonical tiles; never more than 2 + answered requests are out; exactly min(2, #tiles) are out when the first answer is sent; PieceDone only when every tile was answered; at a quiescent end requests == min(#tiles, 2 + answered) and a fully answered piece was completed. Distinct non-trivial = distinct (piece length, last length, peer policy) triples.",
+     "Exploration: 2e3 (quick) / 5e4 (thorough) scenarios covering every residue class of the piece length relative to 16 KiB that the property names.",
+     "Trusted: epochs are recognised on the wire (a Request with begin 0), cross-checked with the manager's assignment; the peer waits >= 5 ms of virtual time before any answer so that the up-front requests are observable.",
+     assumptions=SIM_ASSUMPTIONS)
+_add("C20",
+     "virtual-time trace monitor in the simulation: scripted arrival times around the 120 s ticks; implications judged on the manager log (kill time and reason) and on the KeepAlive frames written per connection",
+     "seeded scenarios of 500..1000 virtual seconds with 1..3 scripted connections (incoming/dialled) of kinds: silent from the start (with and without handshake), keep-alive only (periods 1 s..121 s), live periodic (a real message of any kind every 1 s..120 s), live on the tick grid (k*120 s + {-1,0,+1} ms), real traffic then silence (optionally keep-alives), real traffic with a silent gap, random arrivals; plus in a third of the runs a seeder that falls silent in the middle of a download. Judged: (P1) no real message for more than three intervals after the last one => dropped within 360 s of it and gone from the manager's table, reservation released; (P2) a connection with a real message at least every 120 s is never dropped with a keep-alive timeout; (P3) the KeepAlive frames written on a connection are exactly one per 120 s tick of that connection while it is open. Distinct non-trivial = distinct connection scripts.",
+     "Exploration: 3e3 (quick) / 6e4 (thorough) scenarios on exact virtual time; arrivals that tie with a tick are generated on purpose and both processing orders are accepted.",
+     "Trusted: tokio's paused clock; the connection task's timer origin is observed (client handshake write for dialled, the manager's Incoming event for incoming connections). Unknown message ids are not counted as 'other messages'.",
      assumptions=SIM_ASSUMPTIONS)
 
 NOT_APPLICABLE = []
